@@ -1553,6 +1553,16 @@ func (e *Entry) dup() *Entry {
 		}
 	}
 
+	// Deviations modify the list attributes and append to the default
+	// values of an entry in place, so a copy must not share them.
+	if e.ListAttr != nil {
+		la := *e.ListAttr
+		ne.ListAttr = &la
+	}
+	if e.Default != nil {
+		ne.Default = append([]string{}, e.Default...)
+	}
+
 	// The input and output of an rpc or action are not part of Dir.
 	if e.RPC != nil {
 		ne.RPC = &RPCEntry{}
